@@ -15,6 +15,7 @@ import (
 	"github.com/free5gc/go-gtp5gnl"
 	"github.com/free5gc/go-upf/internal/report"
 	"github.com/free5gc/go-upf/internal/verif/fullstack"
+	"github.com/free5gc/go-upf/internal/verif/rulepath"
 	"github.com/free5gc/go-upf/internal/verif/simkernel"
 	"github.com/free5gc/go-upf/internal/verif/vcore"
 )
@@ -957,6 +958,20 @@ func account(c Case, perio int) {
 	}
 }
 
+// runPath follows the IEs of generated session messages through the PFCP session layer down to the netlink requests
+// (package rulepath): an IE of an accepted message must not be lost on the way.
+func runPath(t vcore.Failer, c rulepath.Case) {
+	v, st := rulepath.Run(c, map[string]bool{"QER": true, "URR": true, "BAR": true})
+	vcore.E.Eval()
+	vcore.E.Class("through_pfcp_layer")
+	if st.SameNumber {
+		vcore.E.Class("through_pfcp_layer:equal_ids_across_kinds")
+		vcore.E.NonTrivial(vcore.JSON(c))
+		vcore.E.Sample("through-pfcp-layer", rulepath.Brief(c))
+	}
+	vcore.Report(t, v, map[string]any{"path": c})
+}
+
 func TestC03(t *testing.T) {
 	defer func() {
 		if drv != nil {
@@ -965,10 +980,19 @@ func TestC03(t *testing.T) {
 	}()
 	files, explicit := vcore.ReplayFiles()
 	for _, f := range files {
-		var c Case
-		if err := vcore.LoadReplayCase(f, &c); err != nil {
+		var w struct {
+			Case
+			Path *rulepath.Case `json:"path"`
+		}
+		if err := vcore.LoadReplayCase(f, &w); err != nil {
 			t.Fatalf("replay %s: %v", f, err)
 		}
+		if w.Path != nil {
+			vcore.E.Class("replayed")
+			runPath(t, *w.Path)
+			continue
+		}
+		c := w.Case
 		v, n := run(c)
 		account(c, n)
 		vcore.E.Class("replayed")
@@ -977,6 +1001,9 @@ func TestC03(t *testing.T) {
 	if explicit {
 		return
 	}
+	vcore.Check(t, vcore.N(300, 3000), func(rt *rapid.T) {
+		runPath(rt, rulepath.Gen(rt))
+	})
 	vcore.Check(t, vcore.N(3000, 100000), func(rt *rapid.T) {
 		c := Case{QER: genQER(rt)}
 		v, n := run(c)
